@@ -75,7 +75,7 @@ Init ==
            /\ m = InitMachine(world, Env, tx)
            /\ n = 0
 
-MaxSteps == 400
+MaxSteps == 4000
 StepM == /\ m.status = "run"
          /\ n < MaxSteps
          /\ m' = Step(m)
